@@ -1,41 +1,50 @@
-(* EntryRefute.v — C03: the full statement is false of the faithful model (known findings KF-02, KF-03). *)
+(* EntryRefute.v — C03: the full statement is false of the faithful model (known findings KF-31, KF-03; KF-02 is repaired). *)
 From Coq Require Import ZArith List Bool Arith.
 Import ListNotations.
 From OvldV Require Import Model.Entry Spec.EntrySpec.
 
 Definition compat_all : lk -> src -> nat -> bool := fun _ _ _ => true.
 
-(* names: x = 0, y = 1, k = 4; annotation 1 = int *)
-(* KF-02: def f(x: int, y: int = 7, *, k: int = 9) ; f(1, k=2) *)
+(* names: x = 0, y = 1, k = 4, u = 6; annotation 1 = int *)
+(* KF-02 (repaired): def f(x: int, y: int = 7, *, k: int = 9) ; f(1, k=2) now forwards k and keys on it *)
 Definition kf02_sig : msig :=
   mkSig false [mkParam PosKw 0 true 1 false; mkParam PosKw 1 false 1 false; mkParam KwOnly 4 false 1 false] 0%Z.
 
-Lemma refuted_kw :
+Example kf02_witness_passes :
+  kf02_class [kf02_sig] 1 [4] = true /\ dom_fwd [kf02_sig] 1 [4] = true /\
+  dispatch compat_all [kf02_sig] false 1 [4]
+  = DRan [mkKE None LType (SPos 0); mkKE (Some 4) LType (SKw 4)] [SPos 0] [(4, SKw 4)] 0 [Some (SPos 0); None; Some (SKw 4)].
+Proof. repeat split; vm_compute; reflexivity. Qed.
+
+Definition kf02_sig_req : msig :=
+  mkSig false [mkParam PosKw 0 true 1 false; mkParam PosKw 1 false 1 false; mkParam KwOnly 4 true 1 false] 0%Z.
+
+Example kf02_required_witness_passes :
+  dispatch compat_all [kf02_sig_req] false 1 [4]
+  = DRan [mkKE None LType (SPos 0); mkKE (Some 4) LType (SKw 4)] [SPos 0] [(4, SKw 4)] 0 [Some (SPos 0); None; Some (SKw 4)].
+Proof. vm_compute; reflexivity. Qed.
+
+(* KF-31: def f(x: int, u: int = 1, /, y: int = 2) ; f(1, y=3): the method and the generated def accept the call, the
+   early exit for the omitted u forwards only x: y is dropped and the method runs with its own default for y *)
+Definition kf31_sig : msig :=
+  mkSig false [mkParam PosOnly 0 true 1 false; mkParam PosOnly 6 false 1 false; mkParam PosKw 1 false 1 false] 0%Z.
+
+Lemma refuted_hole :
   exists sigs self k K,
     forallb sig_wf sigs = true /\ (exists s, In s sigs /\ accepts s k K = true) /\
-    (exists a, analyze sigs = inr a /\ kw_documented a K = true) /\ In 4 K /\
+    (exists a, analyze sigs = inr a /\ kw_documented a K = true) /\ In 1 K /\
     exists key fpos fkw,
       run_entry sigs self k K = ROut (OCall key fpos fkw) /\
-      fwd_ok sigs self k K key fpos fkw = false /\                       (* not what S prescribes: *)
-      fkw = [] /\                                                         (* the keyword k is not forwarded *)
+      fwd_ok sigs self k K key fpos fkw = false /\
+      fpos = [SPos 0] /\ fkw = [] /\
       dispatch compat_all sigs self k K = DRan key fpos fkw 0 [Some (SPos 0); None; None].
-        (* the method runs with its own defaults for y and for k *)
 Proof.
-  exists [kf02_sig], false, 1, [4]. split; [reflexivity|]. split.
-  - exists kf02_sig. split; [left; reflexivity|reflexivity].
+  exists [kf31_sig], false, 1, [1]. split; [reflexivity|]. split.
+  - exists kf31_sig. split; [left; reflexivity|reflexivity].
   - split.
     + eexists. split; [vm_compute; reflexivity|reflexivity].
     + split; [left; reflexivity|]. eexists _, _, _. repeat split; vm_compute; reflexivity.
 Qed.
-
-(* ... with k required, the call that the method accepts is answered "No method" *)
-Definition kf02_sig_req : msig :=
-  mkSig false [mkParam PosKw 0 true 1 false; mkParam PosKw 1 false 1 false; mkParam KwOnly 4 true 1 false] 0%Z.
-
-Lemma refuted_kw_required :
-  accepts kf02_sig_req 1 [4] = true /\
-  exists key, dispatch compat_all [kf02_sig_req] false 1 [4] = DNoMethod key /\ key_named key = [].
-Proof. split; [reflexivity|]. eexists. split; vm_compute; reflexivity. Qed.
 
 (* KF-03: def f(x: int = 5) ; f() *)
 Definition kf03_sig : msig := mkSig false [mkParam PosKw 0 false 1 false] 0%Z.
@@ -66,8 +75,8 @@ Example dom_fwd_inhabited :
                 [SSelf; SPos 0; SKw 1] [(4, SKw 4); (5, SKw 5)]).
 Proof. repeat split; vm_compute; reflexivity. Qed.
 
-(* and contains shapes with an omitted optional positional and keywords naming the leading positionals *)
+(* and contains shapes with an omitted optional positional, a keyword naming the leading positional and a keyword-only one *)
 Example dom_fwd_inhabited_exit :
-  dom_fwd [kf02_sig] 0 [0] = true /\
-  run_entry [kf02_sig] false 0 [0] = ROut (OCall [mkKE None LType (SKw 0)] [SKw 0] []).
+  dom_fwd [kf02_sig] 0 [0; 4] = true /\
+  run_entry [kf02_sig] false 0 [0; 4] = ROut (OCall [mkKE None LType (SKw 0); mkKE (Some 4) LType (SKw 4)] [SKw 0] [(4, SKw 4)]).
 Proof. split; vm_compute; reflexivity. Qed.
